@@ -249,6 +249,51 @@ theorem flag_reqRead (cms : Nat) (w : World c) (h : FlagOn w) : FlagOn (reqRead 
     | exact flag_setChunk _ w h
     | (apply flag_reqLoop; first | exact h | exact flag_setChunk _ w h)
 
+theorem flag_resumeGate (w : World c) (h : FlagOn w) : ∀ r, resumeGate w = some r → FlagOn r.1 := by
+  intro r hr
+  simp only [resumeGate] at hr
+  repeat' split at hr
+  all_goals first | (injection hr with hr; subst hr; exact h) | cases hr
+theorem flag_parkOrFail (w : World c) (h : FlagOn w) : FlagOn (parkOrFail w).1 := by
+  simp only [parkOrFail]; split <;> exact h
+theorem flag_parkedRead (n : Option Nat) (w : World c) (h : FlagOn w) : FlagOn (parkedRead w n).1 := by
+  simp only [parkedRead]
+  split
+  · rename_i r hr; exact flag_resumeGate w h r hr
+  · repeat' split
+    all_goals first
+      | exact h
+      | exact flag_setChunk _ w h
+      | (apply flag_parkOrFail; first | exact h | exact flag_setChunk _ w h)
+      | (apply flag_readUpTo; first | exact h | exact flag_setChunk _ w h)
+      | (apply flag_readAllChunks; first | exact h | exact flag_setChunk _ w h)
+theorem flag_lineTake (w : World c) (h : FlagOn w) : FlagOn (lineTake w) := by
+  simp only [lineTake]
+  exact flag_readChunk _ { w with outb := [] } h
+theorem flag_lineInner : ∀ fuel m (w : World c), FlagOn w → FlagOn (lineInner fuel m w).1 := by
+  intro fuel
+  induction fuel with
+  | zero => intro m w h; exact h
+  | succ f ih =>
+    intro m w h
+    simp only [lineInner]
+    have h1 := flag_lineTake w h
+    repeat' split
+    all_goals first | exact h | exact h1 | exact ih _ _ h1
+theorem flag_lineStart (w : World c) (h : FlagOn w) : FlagOn (lineStart w) := by
+  simp only [lineStart]; split <;> exact h
+theorem flag_lineFinish (r : World c × LineRes) (h : FlagOn r.1) : FlagOn (lineFinish r).1 := by
+  simp only [lineFinish]
+  repeat' split
+  all_goals first | exact h | exact flag_parkOrFail _ h
+theorem flag_parkedLine (w : World c) (h : FlagOn w) : FlagOn (parkedLine w).1 := by
+  simp only [parkedLine]
+  split
+  · rename_i r hr; exact flag_resumeGate w h r hr
+  · exact flag_lineFinish _ (flag_lineInner _ _ _ (flag_lineStart w h))
+theorem flag_connectionLostServer (w : World c) (h : FlagOn w) : FlagOn (connectionLostServer w) := by
+  simp only [connectionLostServer]; exact flag_setExc _ w h
+
 theorem flag_step (w : World c) (op : Op) (h : FlagOn w) : FlagOn (step w op).1 := by
   cases op with
   | deliver seg =>
@@ -265,6 +310,12 @@ theorem flag_step (w : World c) (op : Op) (h : FlagOn w) : FlagOn (step w op).1 
   | readAny => exact flag_readOp none w h
   | setChunk n => exact flag_setChunk n w h
   | reqRead cms => exact flag_reqRead cms w h
+  | pread n => exact flag_parkedRead _ w h
+  | preadAny => exact flag_parkedRead _ w h
+  | preadLine => exact flag_parkedLine w h
+  | closeServer => simp only [step]; split
+                   · exact h
+                   · exact flag_connectionLostServer w h
 
 theorem flag_run (ops : List Op) : ∀ (w : World c), FlagOn w → FlagOn (run w ops) := by
   induction ops with
